@@ -60,9 +60,12 @@ Inductive callee := CFn (f : func) | CNat (k : natk).
 
 Record frame := mkframe { fcl : callee; fpc : nat; fstat : status }.
 
-(* one PanicError: message, recovered flag, source line (None: path "" and
-   position 0:0), serial number of raising (ghost: only the theorems use it) *)
-Record prec := mkprec { pmsg : N; precovered : bool; ppos : option N; pser : N }.
+(* one PanicError: message, recovered flag, aborted flag (not visible through
+   the accessors of PanicError), source line (None: path "" and position 0:0),
+   serial number of raising (ghost: only the theorems use it) *)
+Record prec := mkprec { pmsg : N; precovered : bool; paborted : bool; ppos : option N; pser : N }.
+
+Definition set_aborted (p : prec) : prec := mkprec (pmsg p) (precovered p) true (ppos p) (pser p).
 
 Inductive event := EBody (n : N) | ERecover (v : option N) | EStop (e : N) | EFatal (v : N).
 
@@ -150,13 +153,20 @@ Definition finish (s : state) : sres :=
   | c => end_panic s c
   end.
 
-Definition count_panicked (c : list frame) : nat :=
-  length (filter (fun fr => status_eqb (fstat fr) Panicked) c).
-
 (* nextCall, case recovered (the deferred call that recovered has returned):
-   drop from vm.panic until as many are left as there are panicked frames *)
-Definition trim (s : state) : state :=
-  set_chain s (skipn (length (schain s) - count_panicked (scalls s)) (schain s)).
+   vm.panic = vm.panic.next, then the aborted panics that follow are dropped;
+   None: vm.panic is nil (nil pointer dereference) *)
+Fixpoint drop_ab (c : list prec) : list prec :=
+  match c with
+  | p :: r => if paborted p then drop_ab r else c
+  | [] => []
+  end.
+
+Definition trim (s : state) : option state :=
+  match schain s with
+  | [] => None
+  | _ :: r => Some (set_chain s (drop_ab r))
+  end.
 
 (* a native function called by nextCall (a deferred native call); k is what follows *)
 Definition native_in_next (nk : natk) (s : state) (k : state -> sres) : sres :=
@@ -181,15 +191,52 @@ Definition after_switch (s : state) (call : frame) (i : nat) : sres :=
   | CNat nk => native_in_next nk s (fun s' => Next (set_mode s' (MNext i)))
   end.
 
-(* nextCall, case panicked: the nearest deferred frame below index i *)
-Fixpoint find_deferred_below (c : list frame) (i : nat) : option (nat * frame) :=
+(* nextCall, case panicked.  The pointer p walks along vm.panic: for every
+   panicked or recovered frame that the search leaves behind,
+   `for p = p.next; p.aborted; p = p.next {}` then `p.aborted = true`.
+   mark_next post: post are the records after p; the result is the records
+   up to the new p (the last one, now aborted) and the records after it;
+   None: p runs off the end of the chain (nil pointer dereference). *)
+Fixpoint mark_next (post : list prec) : option (list prec * list prec) :=
+  match post with
+  | [] => None
+  | q :: r =>
+      if paborted q then
+        match mark_next r with
+        | Some (done, rest) => Some (q :: done, rest)
+        | None => None
+        end
+      else Some ([set_aborted q], r)
+  end.
+
+(* the search of the nearest deferred frame below index i; the chain is
+   pre ++ post, p is the last record of pre (pre is empty when vm.panic is nil).
+   Result: the frame found (or none) and the chain with the marks; None: a
+   nil pointer dereference or an index out of range *)
+Fixpoint scan_panicked (c : list frame) (i : nat) (pre post : list prec)
+    : option (option (nat * frame) * list prec) :=
   match i with
-  | O => None
+  | O => Some (None, pre ++ post)
   | S j =>
       match nth_error c j with
-      | Some d => if status_eqb (fstat d) Deferred then Some (j, d) else find_deferred_below c j
       | None => None
+      | Some fr =>
+          match fstat fr with
+          | Deferred => Some (Some (j, fr), pre ++ post)
+          | Panicked | Recovered =>
+              match mark_next post with
+              | Some (done, rest) => scan_panicked c j (pre ++ done) rest
+              | None => None
+              end
+          | _ => scan_panicked c j pre post
+          end
       end
+  end.
+
+Definition chain_split (c : list prec) : list prec * list prec :=
+  match c with
+  | [] => ([], [])
+  | p :: r => ([p], r)
   end.
 
 Definition prev_deferred (c : list frame) (i : nat) : option (nat * frame) :=
@@ -222,24 +269,28 @@ Definition step_next (s : state) (i : nat) : sres :=
              recovered panic leaves the chain and the local copy of the frame
              becomes a returned one, before the next deferred call is looked for *)
           let rec := status_eqb (fstat call) Recovered in
-          let s0 := if rec then trim s else s in
-          let call' := if rec then set_status call Returned else call in
-          match prev_deferred (scalls s0) i with
-          | Some (j, prev) =>
-              let s1 := set_calls s0 (set_nth (scalls s0) j call') in
-              after_switch s1 prev i
-          | None => Next (set_mode s0 (MNext i))
+          match (if rec then trim s else Some s) with
+          | None => Fin OCrash (str s)
+          | Some s0 =>
+              let call' := if rec then set_status call Returned else call in
+              match prev_deferred (scalls s0) i with
+              | Some (j, prev) =>
+                  let s1 := set_calls s0 (set_nth (scalls s0) j call') in
+                  after_switch s1 prev i
+              | None => Next (set_mode s0 (MNext i))
+              end
           end
       | Panicked =>
-          match find_deferred_below (scalls s) i with
-          | Some (j, d) =>
+          match scan_panicked (scalls s) i (fst (chain_split (schain s))) (snd (chain_split (schain s))) with
+          | None => Fin OCrash (str s)
+          | Some (Some (j, d), chain') =>
               match nth_error (scalls s) (S j) with
               | Some above =>
-                  let s1 := set_calls s (set_nth (scalls s) j (set_status above Panicked)) in
+                  let s1 := set_chain (set_calls s (set_nth (scalls s) j (set_status above Panicked))) chain' in
                   after_switch s1 d (S j)
               | None => Fin OCrash (str s)
               end
-          | None => Next (set_mode s (MNext 0))
+          | Some (None, chain') => Next (set_mode (set_chain s chain') (MNext 0))
           end
       end
   end.
@@ -295,7 +346,7 @@ Definition do_recover (s : state) (down : bool) : sres :=
           | [] => Fin OCrash (str s)            (* vm.panic.recovered with vm.panic == nil *)
           | p :: ps =>
               let s1 := set_calls s (mark_recovered (scalls s) i) in
-              let s2 := set_chain s1 (mkprec (pmsg p) true (ppos p) (pser p) :: ps) in
+              let s2 := set_chain s1 (mkprec (pmsg p) true (paborted p) (ppos p) (pser p) :: ps) in
               Next (emit_rec s2 down (Some (pmsg p)))
           end
       end
@@ -310,7 +361,7 @@ Definition raise (s : state) (f : func) (pc0 : nat) (v : N) : sres :=
               | Some l => Some l
               | None => info_get (finfo f) (S pc0)
               end in
-  let p := mkprec v false line (sraised s) in
+  let p := mkprec v false false line (sraised s) in
   let chain' := p :: schain s in
   match scalls s with
   | [] => end_panic s chain'
@@ -397,18 +448,14 @@ Definition vm_run (n : nat) (f : func) : option (outcome * list event) := run n 
 
 Record grec := mkgrec { gmsg : N; grecovered : bool; gaborted : bool; gpos : option N }.
 
-(* gstale, gdrop: set when the run meets the trigger of the known findings
-   recovered-panic-stays-in-chain (a deferred call panics after a recovery in
-   the same activation) and nested-recover-drops-active-panic (a recovery while
-   an aborted panic is still listed); they do not influence the semantics. *)
-Record gst := mkgst { gtr : list event; gpan : list grec; gstale : bool; gdrop : bool }.
+Record gst := mkgst { gtr : list event; gpan : list grec }.
 
 Inductive gres := GNormal (g : gst) | GPanicking (g : gst) | GExit (o : outcome) (tr : list event) | GFuel.
 
-Definition gemit (g : gst) (e : event) : gst := mkgst (e :: gtr g) (gpan g) (gstale g) (gdrop g).
+Definition gemit (g : gst) (e : event) : gst := mkgst (e :: gtr g) (gpan g).
 Definition gpush (g : gst) (v : N) (line : option N) : gst :=
-  mkgst (gtr g) (mkgrec v false false line :: gpan g) (gstale g) (gdrop g).
-Definition gset_pan (g : gst) (l : list grec) : gst := mkgst (gtr g) l (gstale g) (gdrop g).
+  mkgst (gtr g) (mkgrec v false false line :: gpan g).
+Definition gset_pan (g : gst) (l : list grec) : gst := mkgst (gtr g) l.
 
 Fixpoint drop_aborted (l : list grec) : list grec :=
   match l with
@@ -439,7 +486,7 @@ Definition grecover (g : gst) (down ok : bool) : gst :=
 (* the deferred calls ds of an activation (last registered first); rec runs a
    callee; by_panic is the flag of the activation that runs them *)
 Fixpoint g_rundefers (rec : func -> bool -> bool -> gst -> gres) (by_panic : bool)
-    (ds : list callee) (panicking after_rec : bool) (g : gst) {struct ds} : gres :=
+    (ds : list callee) (panicking : bool) (g : gst) {struct ds} : gres :=
   match ds with
   | [] => if panicking then GPanicking g else GNormal g
   | d :: ds' =>
@@ -457,18 +504,16 @@ Fixpoint g_rundefers (rec : func -> bool -> bool -> gst -> gres) (by_panic : boo
             match gpan g' with
             | p :: ps =>
                 if grecovered p then
-                  g_rundefers rec by_panic ds' false true
-                    (mkgst (gtr g') (drop_aborted ps) (gstale g') (gdrop g' || existsb gaborted ps))
-                else g_rundefers rec by_panic ds' true after_rec g'
-            | [] => g_rundefers rec by_panic ds' false after_rec g'
+                  g_rundefers rec by_panic ds' false (gset_pan g' (drop_aborted ps))
+                else g_rundefers rec by_panic ds' true g'
+            | [] => g_rundefers rec by_panic ds' false g'
             end
-          else g_rundefers rec by_panic ds' false after_rec g'
+          else g_rundefers rec by_panic ds' false g'
       | GPanicking g' =>
           let g'' := if panicking
                      then gset_pan g' (mark_aborted (gpan g') (length (gpan g') - n0))
                      else g' in
-          g_rundefers rec by_panic ds' true after_rec
-            (mkgst (gtr g'') (gpan g'') (gstale g'' || after_rec) (gdrop g''))
+          g_rundefers rec by_panic ds' true g''
       | other => other
       end
   end.
@@ -477,25 +522,25 @@ Fixpoint g_rundefers (rec : func -> bool -> bool -> gst -> gres) (by_panic : boo
 Fixpoint g_body (rec : func -> bool -> bool -> gst -> gres) (f : func) (by_panic parent_by_panic : bool)
     (b : list instr) (pc : nat) (ds : list callee) (g : gst) {struct b} : gres :=
   match b with
-  | [] => g_rundefers rec by_panic ds false false g
+  | [] => g_rundefers rec by_panic ds false g
   | ins :: r =>
       match ins with
       | INat (NBody n) => g_body rec f by_panic parent_by_panic r (S pc) ds (gemit g (EBody n))
       | INat (NStop e) => GExit (OStop e) (EStop e :: gtr g)
       | INat (NFatal v) => GExit (ORunPanics v) (EFatal v :: gtr g)
-      | INat (NPanic v) => g_rundefers rec by_panic ds true false (gpush g v (info_get (finfo f) pc))
-      | IPanic v => g_rundefers rec by_panic ds true false (gpush g v (info_get (finfo f) pc))
+      | INat (NPanic v) => g_rundefers rec by_panic ds true (gpush g v (info_get (finfo f) pc))
+      | IPanic v => g_rundefers rec by_panic ds true (gpush g v (info_get (finfo f) pc))
       | ICall b' inf =>
           match rec (mkfunc b' inf) false false g with
           | GNormal g' => g_body rec f by_panic parent_by_panic r (S pc) ds g'
-          | GPanicking g' => g_rundefers rec by_panic ds true false g'
+          | GPanicking g' => g_rundefers rec by_panic ds true g'
           | other => other
           end
       | ICallback b' inf =>
           (* in Go the native function is an ordinary frame between the two: the same as a call *)
           match rec (mkfunc b' inf) false false g with
           | GNormal g' => g_body rec f by_panic parent_by_panic r (S pc) ds g'
-          | GPanicking g' => g_rundefers rec by_panic ds true false g'
+          | GPanicking g' => g_rundefers rec by_panic ds true g'
           | other => other
           end
       | IDeferFn b' inf => g_body rec f by_panic parent_by_panic r (S pc) (CFn (mkfunc b' inf) :: ds) g
@@ -503,7 +548,7 @@ Fixpoint g_body (rec : func -> bool -> bool -> gst -> gres) (f : func) (by_panic
       | IRecover down =>
           let ok := if down then negb by_panic && parent_by_panic else by_panic in
           g_body rec f by_panic parent_by_panic r (S pc) ds (grecover g down ok)
-      | IReturn => g_rundefers rec by_panic ds false false g
+      | IReturn => g_rundefers rec by_panic ds false g
       end
   end.
 
@@ -513,18 +558,11 @@ Fixpoint gfn (fuel : nat) (f : func) (by_panic parent_by_panic : bool) (g : gst)
   | S fuel' => g_body (gfn fuel') f by_panic parent_by_panic (fbody f) 0 [] g
   end.
 
-(* the two trigger flags of a run (false, false when out of fuel) *)
-Definition go_flags (fuel : nat) (f : func) : bool * bool :=
-  match gfn fuel f false false (mkgst [] [] false false) with
-  | GNormal g | GPanicking g => (gstale g, gdrop g)
-  | _ => (false, false)
-  end.
-
 Definition gchain_view (l : list grec) : list (N * bool * option N) :=
   map (fun p => (gmsg p, grecovered p, gpos p)) l.
 
 Definition go_run (fuel : nat) (f : func) : option (outcome * list event) :=
-  match gfn fuel f false false (mkgst [] [] false false) with
+  match gfn fuel f false false (mkgst [] []) with
   | GNormal g => Some (ONil, rev (gtr g))
   | GPanicking g => Some (OPanic (gchain_view (gpan g)), rev (gtr g))
   | GExit o tr => Some (o, rev tr)
